@@ -33,6 +33,8 @@ fn mask_lemma(max_len: usize) {
     kani::cover!(off == 1 && len >= 8, "prefix of 3 unaligned bytes then whole words");
     kani::cover!(off == 3 && len == 6, "prefix of 1 unaligned byte, one word, 1 suffix byte");
     kani::cover!(len == 0, "empty slice");
+    kani::cover!(max_len >= 20 && off == 1 && len >= 17, "long slice, 3-byte unaligned prefix, four whole words");
+    kani::cover!(max_len >= 20 && off == 3 && len >= 17, "long slice, 1-byte unaligned prefix");
     kani::cover!(true, "harness end reached");
 }
 
@@ -66,7 +68,7 @@ fn c14_mask_len_le12() {
 #[kani::proof]
 #[kani::stub(tracing::callsite::DefaultCallsite::register, stub_tracing_register)]
 #[kani::unwind(26)]
-fn c14_mask_len_le20_t() {
+fn c14_mask_len_le20() {
     mask_lemma(20);
 }
 #[kani::proof]
